@@ -7,6 +7,7 @@ use std::path::{Path, PathBuf};
 
 mod leaf;
 mod panics;
+mod schema;
 mod tables;
 
 pub struct Out {
@@ -60,6 +61,7 @@ fn main() {
     leaf::run(&repo, &mut out);
     tables::run(&repo, &mut out);
     panics::run(&repo, &mut out);
+    schema::run(&repo, &mut out);
     for (name, content) in &out.files {
         write_if_changed(&outdir.join(name), content);
     }
